@@ -1089,7 +1089,12 @@ def examples_and_coverage_corr(chk, n_docs, variant):
                 if not paired and consistent(before, after[::-1]):
                     after, paired = after[::-1], True
                 chk.feature(f"coverage-cases-paired-with-their-template:{paired}")
-                for i, a in enumerate(after[:12]):
+                # the first cases, and every case whose container for an overridden location is absent or empty (the
+                # 'Missing `x` at query' cases, parameters without coverage values): there the override IS the container
+                picked = [i for i, a in enumerate(after) if i < 10 or (paired and any(
+                    kw.get(loc) and not before[i][loc] for loc in LOCS))][:40]
+                for i in picked:
+                    a = after[i]
                     b = before[i] if paired else None
                     if b is not None:
                         reqs.append(("coverage_apply", {"kwargs": w_cont(kw), "case": w_cont(b)}))
